@@ -252,12 +252,15 @@ func tokenMutations(rel string, orig []byte, thorough bool) []mutation {
 	return out
 }
 
+var damageHangs int64
+
 type dmgStats struct {
-	Cases    int
-	ByClass  map[string]int
-	ByKind   map[string]int
-	Samples  []any
-	MaxRSSKB int64
+	Cases             int
+	ByClass           map[string]int
+	ByKind            map[string]int
+	Samples           []any
+	MaxRSSKB          int64
+	SkippedAfterHangs int
 }
 
 // damageEnumerate builds a repository with the given events, then damages each metadata file in turn.
@@ -357,6 +360,10 @@ func damageEnumerate(goit string, c *Chunk, evs []M, contents map[string][]byte,
 			m.class2 = classOf[m.rel2]
 		}
 		m.mi = mi
+		if atomic.LoadInt64(&damageHangs) > 24 {
+			stats.SkippedAfterHangs++ // the verdict is clear: hangs are not waited for a hundred times over
+			continue
+		}
 		sl, results := damageCase(goit, c, snap, tz, good, goodLine, m, label, stats)
 		ref.Events = append(ref.Events, M{"ev": "damage", "rel": m.rel, "kind": m.kind, "off": m.off, "val": m.val, "rel2": m.rel2, "hex": fmt.Sprintf("%x", m.data), "class": m.class, "class2": m.class2, "mi": mi})
 		ref.StepLine = append(ref.StepLine, sl)
@@ -460,8 +467,20 @@ func damageCase(goit string, c *Chunk, snap map[string][]byte, tz int, good M, g
 	rssBound := selfPeakRSSKB() + 1<<20
 	st := c.T.Project(dr.Root, dr.Home)
 	results := M{}
+	hung := false
 	run := func(name string, args ...string) ExecResult {
+		if hung || atomic.LoadInt64(&damageHangs) > 24 {
+			// one hang decides the case (every further command on this repository would wait for the timeout again);
+			// after two dozen hangs in one check the verdict is clear and the remaining cases only run until their first hang
+			if hung {
+				return ExecResult{Res: "skipped"}
+			}
+		}
 		x := dr.RunGoit(args...)
+		if x.Res == "hang" {
+			hung = true
+			atomic.AddInt64(&damageHangs, 1)
+		}
 		res := x.Res
 		if x.MaxRSSKB > rssBound {
 			res = "alloc"
